@@ -1624,6 +1624,7 @@ extern "C" fn on_fatal(sig: i32) {
 }
 
 pub fn run_main(args: &[String]) {
+    #[cfg(not(miri))]
     unsafe {
         signal(4, on_fatal as usize); // SIGILL: core::intrinsics::abort
         signal(6, on_fatal as usize); // SIGABRT: std::process::abort, sanitizer reports
